@@ -80,6 +80,15 @@ class C10(Oracle):
         cur = set(pcs.slots[-1].targets)
         want = set(qcs.slots[-1].targets)
         tnew = [s for s in new if s.kind == "target"]
+        # the channel now addresses exactly the atoms that were ASKED for
+        asked = op.get("qubits")
+        if asked is not None and not post.parametrized:
+            qs = list(asked) if isinstance(asked, (list, tuple)) else [asked]
+            if op["op"] == "target_index":
+                qs = [ctx.qids[i] for i in qs if isinstance(i, int) and 0 <= i < len(ctx.qids)] if all(isinstance(i, int) for i in qs) else None
+            if qs is not None and set(map(str, qs)) != set(map(str, want)):
+                v.append(("C10/target-not-applied", f"{name}: {op['op']}({asked}) returned normally but the channel addresses {sorted(map(str, want))}"))
+                return v
         # the fall-time wait before any retarget is allowed; nothing else
         others = [s for s in new if s.kind != "target"]
         pulses = [s for s in pcs.slots if s.kind in ("pulse", "ddelay")]
